@@ -117,8 +117,18 @@ type caseCfg struct {
 	HistSeed    int64
 }
 
+// mix derives well-separated PRNG seeds from (run seed, case index, stream): math/rand
+// sources seeded with consecutive integers give correlated draws at some positions.
+func mix(seed int64, idx int, stream uint64) int64 {
+	z := uint64(seed)*0x9E3779B97F4A7C15 + uint64(idx)*0xBF58476D1CE4E5B9 + stream*0x94D049BB133111EB
+	z = (z ^ (z >> 30)) * 0xBF58476D1CE4E5B9
+	z = (z ^ (z >> 27)) * 0x94D049BB133111EB
+	z ^= z >> 31
+	return int64(z >> 1)
+}
+
 func genCfg(run *evid.Run, r *rand.Rand, idx int) caseCfg {
-	c := caseCfg{Idx: idx, Remote: "origin", Cwd: "top", HistSeed: run.Seed*7919 + int64(idx)}
+	c := caseCfg{Idx: idx, Remote: "origin", Cwd: "top", HistSeed: mix(run.Seed, idx, 2)}
 	slot := slotTags[idx%len(slotTags)]
 	variant := ""
 	if i := strings.IndexByte(slot, ':'); i >= 0 {
@@ -361,6 +371,73 @@ func (c *cs) stepDeleteCommit(dir string) {
 	c.writeLFS(dir, p[1])
 	if c.commit(dir, "delete one lfs file, modify another", c.randAge()) {
 		c.feat["delete-commit"] = true
+	}
+}
+
+// a pushed branch whose tip is older than fetchrecentrefsdays but younger than
+// fetchrecentrefsdays+pruneoffsetdays: only the offset keeps its objects
+func (c *cs) stepWindowBranch(dir string) {
+	lo, hi := float64(c.cfg.RefsDays)+0.5, float64(c.cfg.RefsDays+c.cfg.OffsetDays)-0.5
+	if c.cfg.RefsDays == 0 || c.cfg.OffsetDays == 0 {
+		return
+	}
+	var ok []float64
+	for _, a := range ageDays {
+		if a >= lo && a <= hi {
+			ok = append(ok, a)
+		}
+	}
+	if len(ok) == 0 {
+		return
+	}
+	age := ok[c.r.Intn(len(ok))]
+	back := strings.TrimSpace(string(c.env.PlainGit(dir, "rev-parse", "--abbrev-ref", "HEAD").Stdout))
+	detach := false
+	if back == "HEAD" || back == "" {
+		back = strings.TrimSpace(string(c.env.PlainGit(dir, "rev-parse", "HEAD").Stdout))
+		detach = true
+	}
+	c.seq++
+	br := fmt.Sprintf("win%d", c.seq)
+	if !c.git(dir, "window-branch", "checkout", "-q", "-b", br).OK() {
+		return
+	}
+	c.writeLFS(dir, c.newPath("w"))
+	c.writeLFS(dir, c.newPath("w"))
+	if c.commit(dir, "tip of a branch inside the offset part of the recent-refs window", age) {
+		c.feat["branch-in-offset-window"] = true
+		if !c.feat["nothing-pushed"] {
+			c.push("push-branch", br)
+		}
+	}
+	if detach {
+		c.git(dir, "window-branch", "checkout", "-q", "--detach", back)
+	} else {
+		c.git(dir, "window-branch", "checkout", "-q", back)
+	}
+}
+
+// a local commit that only a tag keeps reachable (the branch is moved back)
+func (c *cs) stepTagOnly(dir string) {
+	cur := strings.TrimSpace(string(c.env.PlainGit(dir, "rev-parse", "--abbrev-ref", "HEAD").Stdout))
+	if cur == "HEAD" || cur == "" {
+		return
+	}
+	c.writeLFS(dir, c.newPath("t"))
+	c.writeLFS(dir, c.newPath("t"))
+	if !c.commit(dir, "commit kept by a tag only", c.randAge()) {
+		return
+	}
+	c.seq++
+	tag := fmt.Sprintf("only%d", c.seq)
+	var res sbx.Result
+	if c.r.Intn(2) == 0 {
+		res = c.git(dir, "tag-only", "tag", tag)
+	} else {
+		res = c.git(dir, "tag-only", "tag", "-a", "-m", "annotated "+tag, tag)
+	}
+	if res.OK() && c.git(dir, "tag-only", "reset", "-q", "--hard", "HEAD~1").OK() {
+		c.feat["tag-only-commit"] = true
 	}
 }
 
@@ -662,31 +739,33 @@ func (c *cs) buildState() {
 			dir = c.wts[c.r.Intn(len(c.wts))]
 		}
 		switch k := c.r.Intn(100); {
-		case k < 14:
+		case k < 13:
 			c.stepCommitUnpushed(dir, 2+c.r.Intn(2))
-		case k < 19:
+		case k < 17:
 			c.stepCommitUnpushed(dir, 1)
-		case k < 25:
+		case k < 27:
 			c.stepDeleteCommit(dir)
-		case k < 33:
+		case k < 34:
 			c.stepStashPlain(dir)
 		case k < 41:
 			c.stepStashUntracked(dir)
-		case k < 48:
+		case k < 47:
 			c.stepStashKeepIndex(dir)
-		case k < 55:
+		case k < 53:
 			c.stepStashStaged(dir)
-		case k < 62:
+		case k < 59:
 			c.stepStage(dir)
-		case k < 66:
+		case k < 63:
 			c.stepOrphanObject(dir)
-		case k < 74:
+		case k < 70:
 			c.stepDetachOld(c.main)
-		case k < 82:
+		case k < 77:
 			c.stepCheckoutBranch(c.main)
-		case k < 92:
+		case k < 86:
 			c.stepWorktree()
-		case k < 96:
+		case k < 91:
+			c.stepTagOnly(dir)
+		case k < 95:
 			if cfg.Tag != "raw-binary-to-pointer" {
 				c.stepToggleText(dir)
 			}
@@ -697,6 +776,14 @@ func (c *cs) buildState() {
 			}
 		}
 	}
+	// deliberate shapes chosen by the case index (not the PRNG) so that every run has them: a branch that only
+	// the prune offset keeps recent, a commit only a tag keeps reachable, files staged at the very end
+	if cfg.Idx%3 != 0 {
+		c.stepWindowBranch(c.main)
+	}
+	if cfg.Idx%3 == 1 {
+		c.stepTagOnly(c.main)
+	}
 	// final position of the main worktree
 	switch c.r.Intn(4) {
 	case 0:
@@ -705,10 +792,21 @@ func (c *cs) buildState() {
 		c.stepCheckoutBranch(c.main)
 	}
 	if c.r.Intn(3) == 0 {
+		// the checked-out commit itself replaces / deletes LFS files (previous versions of the current ref)
+		c.stepDeleteCommit(c.main)
+	}
+	if c.r.Intn(3) == 0 {
 		c.git(c.main, "stash-drop", "stash", "drop", "-q")
 	}
 	if cfg.Cwd == "worktree" && len(c.wts) == 0 {
 		c.stepWorktree()
+	}
+	if cfg.Idx%2 == 0 {
+		c.stepStage(c.main)
+	}
+	if cfg.Idx%3 == 0 && len(c.wts) > 0 {
+		c.stepStage(c.wts[len(c.wts)-1])
+		c.feat["worktree-staged"] = true
 	}
 	// configuration under test is written last so that building the state is not influenced by it
 	c.mustGit(c.main, "config", "config", "lfs.fetchrecentrefsdays", fmt.Sprint(cfg.RefsDays))
@@ -776,7 +874,7 @@ func localOids(gitDir string) map[string]int64 {
 }
 
 func runCase(run *evid.Run, idx int) {
-	r := rand.New(rand.NewSource(run.Seed*1000003 + int64(idx)))
+	r := rand.New(rand.NewSource(mix(run.Seed, idx, 1)))
 	cfg := genCfg(run, r, idx)
 	env := sbx.New()
 	env.Extra = append(env.Extra, "TZ=UTC")
